@@ -1,12 +1,16 @@
 #!/bin/sh
 # tools/regress_seeded.sh [-j N] [dir...] : run every seeded change's property check against it, each in its own scratch worktree
 # of /repo (CIJ_REPO), leaving /repo untouched.  One line per change; "MISSED" if the check exits 0.  N jobs in parallel (default 4).
-# CHECK_ID=<ID> in the environment runs that property's check instead of the change's own.
+# CHECK_ID=<ID> in the environment runs that property's check instead of the change's own (or the one its meta.json names as "check").
 J=4
 if [ "$1" = "-j" ]; then J=$2; shift 2; fi
 [ $# -eq 0 ] && set -- /verif/seeded/*/
 one() {
-  d=${1%/}; name=$(basename $d); id=${CHECK_ID:-${name%%-*}}
+  d=${1%/}; name=$(basename $d); id=${name%%-*}
+  # a change filed under one property whose breakage is another property's clause names that check in its meta.json ("check")
+  own=$(/venv/bin/python -c "import json,sys; print(json.load(open(sys.argv[1])).get('check',''))" $d/meta.json 2>/dev/null)
+  [ -n "$own" ] && id=$own
+  id=${CHECK_ID:-$id}
   W=/tmp/cijverif.regress.$$.$name
   git -C /repo worktree add -q --detach $W HEAD 2>/dev/null || { echo "$name: cannot create worktree"; return; }
   if (cd $W && git apply $d/patch.diff 2>/dev/null); then
